@@ -241,7 +241,16 @@ def gen_tube(rng):
     spec["inner"] = gen_bc(rng, ik, r - t, h) if ik else None
     if rng.random() < 0.5:
         n = rng.randint(2, 4)
-        spec["pressure"] = dict(times=gen_times(rng, n), data=gen_floats(rng, n, False))
+        ptimes = gen_times(rng, n)
+        # a pressure history is a function of time given by samples: a repeated instant (a step) and samples
+        # listed out of order are both accepted by PressureBC and must come back as they were
+        u = rng.random()
+        if u < 0.3:
+            k = rng.randrange(1, n)
+            ptimes[k] = ptimes[k - 1]
+        elif u < 0.45:
+            rng.shuffle(ptimes)
+        spec["pressure"] = dict(times=ptimes, data=gen_floats(rng, n, False))
     else:
         spec["pressure"] = None
     return spec
